@@ -218,16 +218,17 @@ PAIRS = [
     ("a $ 1", "a\n+ 1"), ("'unterminated", "a\n'b'"), ("for", "a\nfor_ = 1"), ("(((", ")"), ("a +", "a +"), ("1 +", "1 + 1"),
     ("__ast_format__", "__version__"), ("", " "), ("\n", ""), ("#", "# \n"),
     ("1" + " + 1" * 250, "1 + 1"), ("[" * 120 + "1" + "]" * 120, "[[1]]"), ("rows [0]", "rows\n[0]"), ("len (x)", "len\n(x)"), ("a # then b", "a # then\nb"),
+    ("a = 1\nb = (", "a"), ("n += 1\ntotal = (", "n = 5\nn"), ("x = 1; y = $", "x"),
 ]
 
 
 def pair_sequence(pi: int, swap: bool, warm: int, stores: bool, e1: bool, e2: bool, repeat: bool) -> None:
     """
-    pre: 0 <= pi < 29 and 0 <= warm <= 2
+    pre: 0 <= pi < 32 and 0 <= warm <= 2
     post: True
     """
     hlib.enter(locals())
-    pi, warm = hlib.concrete(pi, 0, 28), hlib.concrete(warm, 0, 2)
+    pi, warm = hlib.concrete(pi, 0, 31), hlib.concrete(warm, 0, 2)
     first, second = PAIRS[pi][::-1] if swap else PAIRS[pi]
     e1, e2, repeat = (True if e1 else False), (True if e2 else False), (True if repeat else False)
     steps = [(first, e1, False), (second, e2, False)] + ([(first, e1, False), (second, not e2, False)] if repeat else [])
@@ -325,4 +326,35 @@ def lambda_reentry(di: int, fail: bool, times: int) -> None:
     assert after == before, "calls of a lambda's closure (nesting %d deep, ending with %s) left the tree node changed: %r -> %r" % (DEPTHS[di], outcomes, before, after)
     assert depth_left == 2, "scopes leaked after nested lambda calls"
     assert last == 'ok', "after calls nesting %d deep (%s) a shallow call of the same lambda fails with %s" % (DEPTHS[di], outcomes, last)
+    hlib.done()
+
+
+DEFS = ["[]", "{}", "[0, 0, 0]", "{'k': []}", "[[1], {'j': 2}]"]
+USES = ["p.push(1)\nq", "p\nq", "[p, q]", "p == q"]
+
+
+def ast_names_identity(di: int, ui: int, n: int) -> None:
+    """
+    pre: 0 <= di < 5 and 0 <= ui < 4 and 5 <= n <= 40
+    post: True
+    """
+    # two names defined (through ast_names) by separate parses of the SAME text: with a cache both parses give one
+    # tree object, without it two equal ones - the evaluation must not be able to tell
+    hlib.enter(locals())
+    di, ui, n = hlib.concrete(di, 0, 4), hlib.concrete(ui, 0, 3), hlib.concrete(n, 5, 40)
+    with hlib.native():
+        res = []
+        for parser in (_CACHED, _PLAIN):
+            _CACHE.stores = True
+            _CACHE.clear()
+            try:
+                astn = {'p': parser.parse(DEFS[di]), 'q': parser.parse(DEFS[di])}
+                nm = {}
+                v = parser.eval(USES[ui], nm, ast_names=astn, max_ops_evaluated=n)
+                res.append(('ok', repr(v), repr(sorted((k, repr(x)) for k, x in nm.items() if not callable(x))),
+                            nm.get('p') is not None and nm.get('p') is nm.get('q')))
+            except Exception as e:
+                res.append(('err', type(e).__name__))
+        _CACHE.clear()
+    assert res[0] == res[1], "ast_names with two parses of %r, then %r under budget %d: with a parse cache %r, without %r" % (DEFS[di], USES[ui], n, res[0], res[1])
     hlib.done()
